@@ -25,7 +25,7 @@ NT_RULE = ('reference sets of 1-8 species over 1-5 descriptors (elements or a cu
            'with present and absent descriptors, T 50-5000 K, histories of append/extend/pop + refit.  '
            'non-trivial = >=2 descriptors or rank-deficient or a history with a refit; distinct = canonical JSON')
 REQUIRED_ORACLES = ['X1', 'X2', 'X3', 'X4', 'X5']
-REQUIRED_CLASSES = ['rank:unique', 'rank:overdetermined', 'rank:deficient', 'tref:equal', 'tref:spread',
+REQUIRED_CLASSES = ['rank:unique', 'rank:overdetermined', 'rank:deficient', 'rank:deficient:square_cond_below_1/eps', 'tref:equal', 'tref:spread',
                     'descriptor:elements', 'descriptor:custom', 'history:append', 'history:pop', 'history:extend', 'history:dict_copy',
                     'target:absent_descriptor']
 REQUIRED_PROBES = ['References.fit_HoRT_offset', 'References.get_descriptors_matrix', 'References.get_HoRT',
@@ -51,21 +51,49 @@ def _ref(rng, i, descs, T_ref):
             'T_ref': T_ref, 'HoRT_ref': round(rng.uniform(-300, 300), 4)}
 
 
-def generate(rng, tier):
+_CAT = {}
+
+
+def _catalogue():
+    """exactly singular small-integer square matrices whose floating-point condition number stays below 1/eps
+    (found by search, vf/gen/near_regular_singular.json): numerically they look almost regular"""
+    if not _CAT:
+        import json, os
+        _CAT.update(json.load(open(os.path.join(os.path.dirname(os.path.dirname(__file__)), 'gen',
+                                                'near_regular_singular.json'))))
+    return _CAT
+
+
+def generate(rng, tier, near_regular=None):
     custom = rng.random() < 0.3
     pool = GROUP_POOL if custom else DESC_POOL
     descs = rng.sample(pool, rng.randint(1, 5))
     nd = len(descs)
     kind = rng.choice(['unique', 'unique', 'over', 'deficient', 'any'])
+    if near_regular is None and rng.random() < 0.04:
+        cat = _catalogue()
+        near_regular = rng.choice(cat[rng.choice(sorted(cat))])
+        rows = list(range(len(near_regular)))
+        cols = list(rows)
+        rng.shuffle(rows)
+        rng.shuffle(cols)
+        near_regular = [[near_regular[i][j] for j in cols] for i in rows]
+    if near_regular is not None:
+        kind = 'near_regular'
+        nd = len(near_regular)
+        descs = rng.sample(pool, nd)
     n = {'unique': nd, 'over': min(8, nd + rng.randint(1, 3)), 'deficient': rng.choice([rng.randint(1, 8), nd, nd]),
-         'any': rng.randint(1, 8)}[kind]
+         'any': rng.randint(1, 8), 'near_regular': nd}[kind]
     spread = rng.random() < 0.25
     T0 = rng.choice([298.15, 298.15, round(rng.uniform(200, 600), 2)])
     refs = []
     for i in range(n):
         T_ref = round(T0 + (rng.uniform(-0.5, 0.5) if spread else 0.0), 4)
         refs.append(_ref(rng, i, descs, T_ref))
-    if kind == 'deficient' and n >= 3 and rng.random() < 0.5:
+    if kind == 'near_regular':
+        for r, row in zip(refs, near_regular):
+            r['comp'] = {d: v for d, v in zip(descs, row) if v or rng.random() < 0.2}
+    elif kind == 'deficient' and n >= 3 and rng.random() < 0.5:
         # last row = small integer combination of the first two (singular, but neither a duplicate row nor a
         # proportional column; square sets of this kind are badly conditioned rather than exactly singular in floats)
         w1, w2 = rng.choice([1, 2, 3, 4]), rng.choice([1, 2, 3])
@@ -114,6 +142,10 @@ def directed(tier):
     # the pinned H2 / H2O / O2 flavour: two descriptors, three references (over-determined, consistent or not)
     for _ in range(4):
         D.append(generate(rng, tier))
+    cat = _catalogue()
+    for k in sorted(cat):
+        for A in cat[k]:
+            D.append(generate(rng, tier, near_regular=A))
     return D
 
 
@@ -169,6 +201,8 @@ def _check_set(ctx, spec, refs_obj, current, tag):
     else:
         rk = 'deficient'
     ctx.cls('rank:' + rk)
+    if rk == 'deficient' and nd == n and np.linalg.cond(A) < 1.0 / np.finfo(float).eps:
+        ctx.cls('rank:deficient:square_cond_below_1/eps')
     ctx.nontrivial(nd >= 2 or rk == 'deficient' or tag != 'init')
     mech = {'rank': rk, 'descriptor': 'elements' if descriptor == 'elements' else 'custom', 'after': tag}
     # --- X1 / X2 through the plumbing
